@@ -13,6 +13,7 @@ Search : fnmatch(s, escape(s), flags) is True and every one-edit neighbour of s 
          drive / UNC shapes with unix=False; non-magic patterns match exactly themselves.
 """
 from __future__ import annotations
+import re
 import warnings
 
 import common
@@ -162,7 +163,8 @@ def run(ck: Check) -> int:
             gci = (bool(gfl & G.IGNORECASE) or win) and not (gfl & G.CASE)
             path = s
             if win and R.random() < 0.5:
-                path = R.choice(['c:/', 'C:\\', '//host/share/', '//?/UNC/h/s/', '//?/c:/', '\\\\h\\s\\']) + s
+                path = R.choice(['c:/', 'C:\\', '//host/share/', '//?/UNC/h/s/', '//?/c:/', '\\\\h\\s\\', '//host//share/', '//?/UNC/h//s/',
+                                 '\\\\h\\\\s\\']) + s
             gpat = G.escape(path, unix=not win)
             npath = path.replace('\\', '/') if win else path
             nodir_dir = bool(gfl & G.NODIR) and (npath.endswith('/') or npath.rstrip('/').split('/')[-1] in ('.', '..'))
@@ -178,6 +180,8 @@ def run(ck: Check) -> int:
             sr.evaluations += 1 + len(nb)
             if not ok and not nodir_dir:
                 kid = 'KF-D3p' if '\n' in path else None
+                if kid is None and win and re.match(r'^(//[?.]/UNC/[^/]+/{2,}[^/]|//[^/?.][^/]*/{2,}[^/])', npath, re.I):
+                    kid = 'KF-D33'      # a doubled separator between host and share: the two drive scanners disagree
                 ck.report(Failing(f'globmatch({path!r}, escape(path)={gpat!r}) is False', {'api': 'globmatch', 's': path, 'pattern': gpat, 'flags': gfl}, True, False), kid)
                 sr.histogram[kid or 'glob-self-mismatch'] = sr.histogram.get(kid or 'glob-self-mismatch', 0) + 1
             for x, m in nb:
